@@ -211,7 +211,7 @@ class ModelCompiler:
             ):
                 formula = xltypes.XLFormula(
                     input_dict[item],
-                    sheet_name=cell_address.split('!')[0]
+                    sheet_name=cell_address.rsplit('!', 1)[0]
                 )
                 cell = xltypes.XLCell(
                     cell_address, None,
@@ -236,7 +236,7 @@ class ModelCompiler:
             cell_address = self.defined_names[name]
             sheet_str, sep, coord = cell_address.rpartition('!')
             cell_address = sheet_str + sep + coord.replace('$', '')
-            if cell_address.count('!') == 1:
+            if '!' in cell_address:
                 sheet_str, coord = cell_address.rsplit('!', 1)
                 cell_address = f'{utils.resolve_sheet(sheet_str)}!{coord}'
 
